@@ -40,7 +40,8 @@ def generate(rng, n, tier):
         st = rng.choice(styles)
         # dict styles with a placeholder generator of the caller's own (names that begin / end with the characters of the
         # style's decoration included): the name in the text is the key in the collected dict
-        pgen = rng.choice(["slot%d", "s%ds", "status%d", "(p%d)", "%d", "p_%d_s"]) if st in ("named", "pyformat") and rng.random() < 0.25 else None
+        pgen = rng.choice(["slot%d", "s%ds", "status%d", "(p%d)", "p_%d_s"]) \
+            if st in ("named", "pyformat") and rng.random() < 0.25 and "Parameter(" not in script else None
         yield {"script": script, "var": v, "style": st, "exec": i % 4 == 0, "pgen": pgen}
 
 
